@@ -21,13 +21,14 @@ import (
 )
 
 type Case struct {
-	TextsHex []string // one or more input texts (hex of the bytes)
-	Mode     string   // "reader", "reset" (one Reader re-Reset per text), "files"
-	Paths    []int    // files mode: index of the text each path refers to (duplicates allowed)
-	Labels   []string // files mode: label for path i ("" = none)
-	NoLabels bool     // files mode: Files.AllowLabels is false (library use); paths are taken whole
-	EqNames  bool     // files mode: the file names contain '='
-	Preview  string   // first text, for the human reader only
+	TextsHex  []string // one or more input texts (hex of the bytes)
+	Mode      string   // "reader", "reset" (one Reader re-Reset per text), "files"
+	Paths     []int    // files mode: index of the text each path refers to (duplicates allowed)
+	Labels    []string // files mode: label for path i ("" = none)
+	StopAfter []int    // reset mode: input i is abandoned after StopAfter[i]-1 records (0 = read to the end), then Reset
+	NoLabels  bool     // files mode: Files.AllowLabels is false (library use); paths are taken whole
+	EqNames   bool     // files mode: the file names contain '='
+	Preview   string   // first text, for the human reader only
 	// FailAfter[i] > 0: in reset mode, input i is delivered by a reader that
 	// returns an I/O error after that many bytes (or, if -1, contains a line of
 	// 70000 bytes, beyond the scanner's limit). The next input must read normally.
@@ -384,6 +385,58 @@ func checkReader(c Case, texts []string, v *vcase.Verdict) string {
 		} else {
 			r.Reset(strings.NewReader(text), fname, init...)
 		}
+		if c.Mode == "reset" && i < len(c.StopAfter) && c.StopAfter[i] > 0 && i+1 < len(texts) {
+			// The caller abandons this input after k records and resets the reader onto the
+			// next one. What it saw must be the first k records; the reader has then parsed
+			// exactly the lines up to the one the k-th record came from (unit metadata of
+			// those lines counts), and nothing of this input may show up later.
+			scratch := refbench.Units{} // (which records a Unit line yields depends on the metadata known so far)
+			for uk, um := range units {
+				cp := *um
+				scratch[uk] = &cp
+			}
+			full := refbench.Read(text, scratch)
+			k := c.StopAfter[i] - 1
+			if k > len(full) {
+				k = len(full)
+			}
+			upto := 0
+			if k > 0 {
+				upto = full[k-1].Line
+			}
+			prefix := text
+			for pos, nl := 0, 0; pos < len(text); pos++ {
+				if text[pos] == '\n' {
+					if nl++; nl == upto {
+						prefix = text[:pos+1]
+						break
+					}
+				}
+			}
+			if upto == 0 {
+				prefix = ""
+			}
+			want := refbench.Read(prefix, units)
+			if len(want) < k {
+				return "VERIF-BROKEN prefix has fewer records than consumed"
+			}
+			var gots []got
+			for len(gots) < k && r.Scan() {
+				gots = append(gots, snapshot(r.Result()))
+			}
+			if len(gots) != k {
+				return fmt.Sprintf("%s: only %d of the first %d records", fname, len(gots), k)
+			}
+			if msg := compare(fname, gots, want[:k], internal); msg != "" {
+				return msg
+			}
+			if k < len(want) {
+				v.Label("abandoned_inside_a_line")
+			}
+			v.Label("abandoned_early_then_reset")
+			all = append(all, gots...)
+			continue
+		}
 		want := refbench.Read(text, units)
 		labelText(v, text, want)
 		var gots []got
@@ -557,6 +610,12 @@ func Gen(t *rapid.T) Case {
 		if ntexts >= 3 {
 			i := rapid.IntRange(1, ntexts-2).Draw(t, "failidx")
 			c.FailAfter[i] = rapid.SampledFrom([]int{-1, 1, 10, 100, 300}).Draw(t, "failafter")
+		}
+	}
+	if c.Mode == "reset" && ntexts >= 2 && c.FailAfter == nil && vcase.OneIn(t, 3, "stopearly") {
+		c.StopAfter = make([]int, ntexts)
+		for i := 0; i < ntexts-1; i++ {
+			c.StopAfter[i] = rapid.IntRange(0, 9).Draw(t, "stopafter")
 		}
 	}
 	if c.Mode == "files" {
